@@ -346,6 +346,12 @@ def r_feature_loop(repo, rep, R='R6.4'):
         bad = [s_ for s_ in sets if s_ not in ((xf, yf), (yf, xf))]
         rep.check(not bad, R, w, 'feature-loop:mapping-only-pairs', 'only variable := partner-feature pairs are recorded',
                   'records %s' % [(show(a)[:40], show(b)[:40]) for a, b in bad])
+        # ... and the key of a recorded pair is itself a variable on that path (`if x.is_variable or y.is_variable:` also records
+        # "no feature := X", which then rewrites every feature-less atom of the results)
+        unkeyed = [s_ for s_ in sets if s_ in ((xf, yf), (yf, xf)) and (A(s_[0], 'is_variable'), True) not in conds]
+        rep.check(not unkeyed, R, w, 'feature-loop:key-is-variable', 'a feature is bound only where it is a variable itself',
+                  'records %s on a path where the key was not found to be a variable: a constant (or absent) feature is then replaced in the results'
+                  % [(show(a)[:40], show(b)[:40]) for a, b in unkeyed][:1])
         wrapped = it[0] == 'call' and it[1] == N('sorted')
         inner = it[2][0] if wrapped else it
         okset = show(inner).replace(' ', '') in ('(set(self.x_features.keys())&set(self.y_features.keys()))',
